@@ -98,6 +98,33 @@ def run(p, report, tier):
     check_reconstruction(p, report)
     check_none_guard(p, report)
     check_unique_selector(p, report)
+    report.rule("R19.9", "training indices travel with their labels and weights: every check_indices on the indices of "
+                "fit / partial_fit passes unique=self.enforce_unique_samples (the default would sort and de-duplicate "
+                "them while y and sample_weight keep the caller's order); stores into the base_* state happen only "
+                "under a set_base_clf test", floor=4)
+    icw9 = p.get_class("IndexClassifierWrapper")
+    for mn in ("fit", "partial_fit"):
+        m9 = icw9.methods.get(mn)
+        if m9 is None:
+            raise AnalysisError(f"IndexClassifierWrapper.{mn} vanished")
+        t9 = FuncTree(m9.node)
+        for c in ast.walk(m9.node):
+            if isinstance(c, ast.Call) and c01.callname(c) == "check_indices":
+                uq = next((k.value for k in c.keywords if k.arg == "unique"), None)
+                ok = uq is not None and ast.unparse(uq) == "self.enforce_unique_samples"
+                report.add("R19.9", m9.qual, f"{site_id(c, 60)} keeps the caller's order unless uniqueness is enforced",
+                           f"{m9.file}:{c.lineno}", ok, detail="unique=self.enforce_unique_samples" if ok else
+                           "the default unique=True sorts and de-duplicates the indices: labels and weights no longer "
+                           "belong to the samples they were given for")
+        for st in ast.walk(m9.node):
+            if isinstance(st, ast.Assign) and any(isinstance(t, ast.Attribute) and isinstance(t.value, ast.Name)
+                                                  and t.value.id == "self" and t.attr.startswith("base_") for t in st.targets):
+                guarded9 = any(isinstance(owner, ast.If) and field == "body" and "set_base_clf" in ast.unparse(owner.test)
+                               for (s_, owner, field, idx) in t9.ancestors(st))
+                report.add("R19.9", m9.qual, f"`{norm_stmt(st, 60)}` only on request", f"{m9.file}:{st.lineno}", guarded9,
+                           detail="under a set_base_clf test" if guarded9 else
+                           "the stored base state is overwritten by every (re)fit: a later restart from the base model "
+                           "contains samples that were only tried hypothetically")
     report.rule("R19.4", "the three predict* siblings are structurally identical up to the delegated method name "
                 "(same NaN guard on the kernel block before the precomputed clone is used); the precomputed kernel "
                 "comes from the wrapped classifier's metric / metric_dict", floor=4)
@@ -188,6 +215,7 @@ def run(p, report, tier):
         f = ci.methods[m]
         tree = FuncTree(f.node)
         guard = [n for n in ast.walk(f.node) if isinstance(n, ast.If) and "isnan" in ast.unparse(n.test)
+                 and ".all()" not in ast.unparse(n.test) and "np.all(" not in ast.unparse(n.test)
                  and any(isinstance(s, ast.Raise) for s in n.body)]
         pre = [c for c in deleg_calls(f.node) if c.args and isinstance(c.args[0], ast.Name)]
         def guarded(c):
@@ -204,6 +232,7 @@ def run(p, report, tier):
                         continue
                     ht = FuncTree(hm.node)
                     hg = [n for n in ast.walk(hm.node) if isinstance(n, ast.If) and "isnan" in ast.unparse(n.test)
+                          and ".all()" not in ast.unparse(n.test) and "np.all(" not in ast.unparse(n.test)
                           and any(isinstance(s_, ast.Raise) for s_ in n.body)]
                     rets = [n for n in ast.walk(hm.node) if isinstance(n, ast.Return) and isinstance(n.value, ast.Name)]
                     if hg and rets and all(dominates(ht, hg[0], r_) and r_.value.id in names_in(hg[0].test) for r_ in rets):
@@ -222,6 +251,7 @@ def run(p, report, tier):
                     if pos >= len(hparams):
                         continue
                     hg = [n for n in ast.walk(hm.node) if isinstance(n, ast.If) and "isnan" in ast.unparse(n.test)
+                          and ".all()" not in ast.unparse(n.test) and "np.all(" not in ast.unparse(n.test)
                           and hparams[pos] in names_in(n.test) and any(isinstance(s_, ast.Raise) for s_ in n.body)]
                     if hg:
                         return True
